@@ -22,6 +22,7 @@
 #include "algorithms/sequential/tbfalgorithm.hpp"
 #ifdef USE_OMP
 #include "algorithms/openmp/tbfopenmpalgorithm.hpp"
+#include "mock_gomp.h"
 #endif
 
 #include "reckernel.hpp"
@@ -183,6 +184,20 @@ int main(){
             algo->execute(*cs.tree, int(kv(ts, "flags", 63)));
             flushLog();
         }
+#ifdef USE_OMP
+        else if(op == "exec" && ts.size() > 1 && ts[1] == "omp"){
+            // sched=<0 fifo|1 lifo|2 random|3 priority-inverted|4 priority> seed=<n> workers=<k>
+            MockConfig mc; mc.schedule = int(kv(ts, "sched", 0)); mc.seed = (unsigned long)kv(ts, "seed", 1); mc.nworkers = int(kv(ts, "workers", 1));
+            mock_gomp_configure(mc);
+            std::unique_ptr<TbfOpenmpAlgorithm<RealType, Kernel, SpaceIndex>> algo(
+                new TbfOpenmpAlgorithm<RealType, Kernel, SpaceIndex>(*cs.config, kv(ts, "upper", 2)));
+            mock_gomp_clear_history();
+            algo->execute(*cs.tree, int(kv(ts, "flags", 63)));
+            long nt = 0; mock_gomp_history(&nt);
+            std::cout << "T " << nt << "\n";
+            flushLog();
+        }
+#endif
         else if(op == "find" && ts.size() > 2 && ts[1] == "cell"){
             const long l = std::stol(ts[2]);
             for(size_t k = 3 ; k < ts.size() ; ++k){
